@@ -51,5 +51,8 @@ MC_INIT
     register_flat<std::less<int>>("");
     register_flat<std::greater<int>>("_greater");
     register_flat<c02::HalfLess>("_half_less");
+    mc::add_check("flat_map_on_igris_vector_record_key", [] {
+        c02::rec_key_body<igris::flat_map<c02::Rec, int, std::less<c02::Rec>, trk::TrackAlloc<std::pair<c02::Rec, int>>>, c02::StdRecRef>("flat_map_on_igris_vector");
+    });
 }
 MC_MAIN
